@@ -818,9 +818,14 @@ func (e *MetaCDC) startInternal(info *meta.TaskInfo, ignoreUpdateState bool) err
 	taskLog := log.With(zap.String("task_id", info.TaskID))
 	uKey := getTaskUniqueIDFromInfo(info)
 
-	e.replicateEntityMap.RLock()
+	// the entity is referenced from the moment it is looked up: a concurrent pause or delete of its last
+	// attached task must not tear it down while this task is being started on it
+	e.replicateEntityMap.Lock()
 	replicateEntity, ok := e.replicateEntityMap.data[uKey]
-	e.replicateEntityMap.RUnlock()
+	if ok {
+		replicateEntity.refCnt.Inc()
+	}
+	e.replicateEntityMap.Unlock()
 
 	if !ok {
 		var err error
@@ -828,13 +833,18 @@ func (e *MetaCDC) startInternal(info *meta.TaskInfo, ignoreUpdateState bool) err
 		if err != nil {
 			return err
 		}
+		replicateEntity.refCnt.Inc()
+	}
+	releaseEntity := func() {
+		replicateEntity.refCnt.Dec()
+		e.releaseEntityIfUnused(uKey)
 	}
 
 	ctx := context.Background()
 	taskPositions, err := e.metaStoreFactory.GetTaskCollectionPositionMetaStore(ctx).Get(ctx, &meta.TaskCollectionPosition{TaskID: info.TaskID}, nil)
 	if err != nil {
 		taskLog.Warn("fail to get the task collection position", zap.Error(err))
-		e.releaseEntityIfUnused(uKey)
+		releaseEntity()
 		return servererror.NewServerError(errors.WithMessage(err, "fail to get the task collection position"))
 	}
 
@@ -871,6 +881,7 @@ func (e *MetaCDC) startInternal(info *meta.TaskInfo, ignoreUpdateState bool) err
 		})
 	if err != nil {
 		taskLog.Warn("fail to new the collection reader", zap.Error(err))
+		releaseEntity()
 		return servererror.NewServerError(errors.WithMessage(err, "fail to new the collection reader"))
 	}
 	go func() {
@@ -891,6 +902,7 @@ func (e *MetaCDC) startInternal(info *meta.TaskInfo, ignoreUpdateState bool) err
 	}
 	channelReader, err := e.getChannelReader(info, replicateEntity, rpcRequestChannelName, rpcRequestPosition)
 	if err != nil {
+		releaseEntity()
 		return err
 	}
 	readCtx, cancelReadFunc := context.WithCancel(log.WithTraceID(context.Background(), info.TaskID))
@@ -905,12 +917,11 @@ func (e *MetaCDC) startInternal(info *meta.TaskInfo, ignoreUpdateState bool) err
 		if err != nil {
 			taskLog.Warn("fail to update the task meta", zap.Error(err))
 			quitFunc()
-			e.releaseEntityIfUnused(uKey)
+			releaseEntity()
 			return servererror.NewServerError(errors.WithMessage(err, "fail to update the task meta, task_id: "+info.TaskID))
 		}
 	}
 	replicateEntity.taskQuitFuncs.Insert(info.TaskID, quitFunc)
-	replicateEntity.refCnt.Inc()
 	replicateEntity.UpdateMapping(GetCollectionMappingFromTaskInfo(info))
 	e.cdcTasks.Lock()
 	info.State = meta.TaskStateRunning
